@@ -254,14 +254,16 @@ impl HnswBackend {
                 && final(self)@ == old(self)@.insert(d, (old(self)@[d].0, merge_meta(old(self)@[d].1, m@, merge), old(self)@[d].2)) { unimplemented!() }
     #[verifier::external_body] pub fn insert(&mut self, d: u64, e: Vec<f32>, m: HashMap<String, String>) -> (r: Result<()>)
         ensures r.is_err() ==> final(self)@ == old(self)@,
-            r.is_ok() ==> final(self)@.contains_key(d) && final(self)@[d].0 == e@ && final(self)@[d].1 == m@
-                && final(self)@[d].2.digest == spec_digest(e@) && final(self)@.remove(d) == old(self)@.remove(d) { unimplemented!() }
+            r.is_ok() ==> final(self)@.contains_key(d) && final(self)@[d].0.len() == e@.len() && final(self)@[d].1 == m@
+                && final(self)@[d].2.digest == spec_digest(final(self)@[d].0) && final(self)@.remove(d) == old(self)@.remove(d),
+            r.is_ok() && preflight_ok(e@) ==> final(self)@[d].0 == e@ { unimplemented!() }
 }
 
 /// capability: this exact vector passed the engine's pre-flight (granted only by normalize_in_place_if_needed Ok; same capability as
-/// in backend_env.rs).  HnswBackend::insert stores its argument bit for bit -- the `final(self)@[d].0 == e@` of the stub above --
-/// only for such a vector (unit implied_cold_tier: wrapper precondition `preflight_ok(e@)`); the call site of TieredEngine::insert
-/// discharges it in unit engine_write_paths (proof fn c03_cold_insert_arg_preflighted)
+/// in backend_env.rs).  HnswBackend::insert stores its argument bit for bit only for such a vector (last clause of the stub above;
+/// any other accepted vector is stored NORMALISED: same length, digest of the stored vector); exactly what unit implied_cold_tier
+/// derives from backend_insert.  The call site of TieredEngine::insert hands over a pre-flighted vector (unit engine_write_paths,
+/// proof fn c03_cold_insert_arg_preflighted)
 pub uninterp spec fn preflight_ok(v: Seq<f32>) -> bool;
 #[verifier::external_body]
 fn normalize_in_place_if_needed(distance: DistanceMetric, embedding: &mut Vec<f32>) -> (r: Result<()>)
